@@ -250,4 +250,46 @@ def extract(repo):
         o.define("dcVersionsMaxLen", "Nat", str(rust_int(vm.group(1))), "DC_SUPPORTED_VERSIONS_MAX_LEN (decode loop breaks at it; versions must fit u32)")
     else:
         o.fail("dcVersionsMaxLen", "Nat", "0", "DcSupportedVersions::decode not recognised")
+    # --- the offline RFC text (specs/…/rfc9000/18.2.toml): names, ids and the numbers of the normative sentences,
+    # so that the Lean `Rfc.TransportParams.rfc9000` table is tied to the text it was transcribed from
+    try:
+        spec = read(repo, "specs/www.rfc-editor.org/rfc/rfc9000/18.2.toml")
+    except Exception:
+        spec = ""
+    text = " ".join(l[1:].strip() for l in spec.splitlines() if l.startswith("#"))
+    text = re.sub(r"\s+", " ", text)
+    params = [(m.group(1), rust_int(m.group(2))) for m in re.finditer(r"\b([a-z_]+) \((0x[0-9a-f]{2})\):", text)]
+    if len(params) >= 17:
+        o.define("rfcParams", "List (String × Nat)", "[" + ", ".join(f'("{a}", {b})' for a, b in params) + "]",
+                 "RFC 9000 §18.2 (offline copy): `name (0xNN):` definitions in the order of the text")
+    else:
+        o.fail("rfcParams", "List (String × Nat)", "[]", "specs/…/rfc9000/18.2.toml: parameter definitions not found")
+    phrases = [
+        ("ack_delay_exponent.default", r"ack_delay_exponent \(0x0a\):.*?a default value of (\d+) is assumed"),
+        ("ack_delay_exponent.above_invalid", r"ack_delay_exponent \(0x0a\):.*?Values above (\d+) are invalid"),
+        ("max_ack_delay.default", r"max_ack_delay \(0x0b\):.*?a default of (\d+) milliseconds is assumed"),
+        ("max_ack_delay.pow2_or_greater_invalid", r"max_ack_delay \(0x0b\):.*?Values of 2\^(\d+) or greater are invalid"),
+        ("max_udp_payload_size.default", r"max_udp_payload_size \(0x03\):.*?maximum permitted UDP payload of (\d+)"),
+        ("max_udp_payload_size.below_invalid", r"max_udp_payload_size \(0x03\):.*?Values below (\d+) are invalid"),
+        ("active_connection_id_limit.at_least", r"active_connection_id_limit \(0x0e\):.*?parameter MUST be at least (\d+)"),
+        ("active_connection_id_limit.default", r"active_connection_id_limit \(0x0e\):.*?a default of (\d+) is assumed"),
+        ("stateless_reset_token.bytes", r"stateless_reset_token \(0x02\):.*?a sequence of (\d+) bytes"),
+    ]
+    found = []
+    for key, pat in phrases:
+        pm = re.search(pat, text)
+        if pm:
+            found.append((key, int(pm.group(1))))
+    if len(found) == len(phrases):
+        o.define("rfcNumbers", "List (String × Nat)", "[" + ", ".join(f'("{a}", {b})' for a, b in found) + "]",
+                 "RFC 9000 §18.2 (offline copy): the numbers in the normative sentences")
+    else:
+        o.fail("rfcNumbers", "List (String × Nat)", "[]", "specs/…/rfc9000/18.2.toml: normative sentences not found")
+    so = re.search(r"A client MUST NOT include any server-only transport parameter: ([a-z_, ]+?), or ([a-z_]+)\.", text)
+    if so:
+        names = [x.strip() for x in so.group(1).split(",") if x.strip()] + [so.group(2)]
+        o.define("rfcServerOnly", "List String", "[" + ", ".join(f'"{n}"' for n in names) + "]",
+                 "RFC 9000 §18.2: \"A client MUST NOT include any server-only transport parameter: …\"")
+    else:
+        o.fail("rfcServerOnly", "List String", "[]", "server-only sentence not found")
     return o
